@@ -199,6 +199,36 @@ def determinism_static(replay=None):
 
 # ---- bounded float leg: the unmodified functions on concrete designs ------------------------------------------------------
 
+def _lens(c1, r1, c2, r2):
+    """overlap area of two discs, written for this check from the textbook formula (independent of the module under test)"""
+    import math
+    d = math.hypot(c1[0] - c2[0], c1[1] - c2[1])
+    if d >= r1 + r2:
+        return 0.0
+    if d <= abs(r1 - r2):
+        return math.pi * min(r1, r2) ** 2
+    a1 = math.acos(max(-1.0, min(1.0, (d * d + r1 * r1 - r2 * r2) / (2 * d * r1))))
+    a2 = math.acos(max(-1.0, min(1.0, (d * d + r2 * r2 - r1 * r1) / (2 * d * r2))))
+    return r1 * r1 * (a1 - math.sin(2 * a1) / 2) + r2 * r2 * (a2 - math.sin(2 * a2) / 2)
+
+
+def _own_cost(netlist):
+    """overlap over ordered pairs of distinct modules + half the wire length, from the definitions (areas and centres read from the modules)"""
+    import math
+    ms = netlist.modules
+    tot = 0.0
+    for i, a in enumerate(ms):
+        for j, b in enumerate(ms):
+            if i != j:
+                tot += _lens((a.center.x, a.center.y), math.sqrt(a.area() / math.pi), (b.center.x, b.center.y), math.sqrt(b.area() / math.pi))
+    wl = 0.0
+    for e in netlist.edges:
+        cs = [(m.center.x, m.center.y) for m in e.modules]
+        mx, my = sum(c[0] for c in cs) / len(cs), sum(c[1] for c in cs) / len(cs)
+        wl += e.weight * sum(math.hypot(c[0] - mx, c[1] - my) for c in cs)
+    return tot + wl / 2
+
+
 def _design(rng, n_mod):
     W, H = rng.choice([(10.0, 7.0), (8.0, 2.0), (0.3, 0.7), (120.5, 33.1)])
     mods, names = {}, []
@@ -259,20 +289,38 @@ def float_leg(chunk, replay=None):
             d2 = copy.deepcopy(die)
             try:
                 if max_iter == 40 and it % 5 == 0:
+                    if it % 10 == 0:
+                        # history in the same process (added after seed C13-5): a sibling design with the same module names and other areas
+                        sib = copy.deepcopy(doc)
+                        for info_ in sib["Modules"].values():
+                            if "area" in info_:
+                                info_["area"] = info_["area"] * 0.01
+                        try:
+                            fr.force_algorithm(Die(f"{W}x{H}", Netlist(write_yaml(sib))), False, None, 3)
+                        except Exception:  # noqa
+                            pass
                     res, _ = fr.force_algorithm(d2, False, None, 10)
-                    # the returned layout is the cheapest among the spring constants tried (recomputed independently)
+                    # the returned layout is the cheapest among the spring constants tried (costs recomputed from the definitions, not with
+                    # the module's own overlap function)
                     costs = []
                     for k in [i / 10 for i in range(4, 16)]:
                         dd, _ = fr.fruchterman_reingold_layout(copy.deepcopy(die), k, False, None, 10)
-                        costs.append(fr.total_intersection_area(dd) + dd.netlist.wire_length / 2)
-                    got = fr.total_intersection_area(res) + res.netlist.wire_length / 2
+                        costs.append(_own_cost(dd.netlist))
+                    got = _own_cost(res.netlist)
                     if got > min(costs) + 1e-9 * max(1.0, abs(min(costs))):
                         failures.append(dict(clause="float.returned_layout_is_the_cheapest_tried", design=[W, H, doc], cost=got, best=min(costs)))
                     res2, _ = fr.force_algorithm(copy.deepcopy(die), False, None, 10)
                     if [(m.center.x, m.center.y) for m in res.netlist.modules] != [(m.center.x, m.center.y) for m in res2.netlist.modules]:
                         failures.append(dict(clause="float.deterministic", design=[W, H, doc]))
                 else:
-                    res, _ = fr.fruchterman_reingold_layout(d2, rng.choice([0.4, 1.0, 1.5]), False, None, max_iter)
+                    # now and then an extreme spring constant (added after seed C13-6: a clamp that lets NaN through)
+                    kap = rng.choice([0.4, 1.0, 1.5]) if rng.random() < 0.9 else rng.choice([5e-324, 1e-308, 1e-30, 1e30, 1e300])
+                    try:
+                        res, _ = fr.fruchterman_reingold_layout(d2, kap, False, None, max_iter)
+                    except (OverflowError, ZeroDivisionError):
+                        if kap in (0.4, 1.0, 1.5):
+                            raise
+                        continue        # an extreme constant may make the arithmetic overflow: the function then does not return
             except Exception as e:  # noqa
                 failures.append(dict(clause="float.never_fails", design=[W, H, doc], max_iter=max_iter, observed=f"{type(e).__name__}: {e}"))
                 continue
